@@ -31,6 +31,8 @@ pub const STREAMS: &[(&str, usize, usize)] = &[
     ("mut-swap", 2500, 30000),
     ("gen-ok", 2500, 40000),
     ("gen-ill", 1500, 20000),
+    // the shared whole-program generator (harness/src/progen.rs) with every flag on, plus token swaps of its output
+    ("progen", 1500, 20000),
     ("nest", 264, 2200),
     ("layout", 400, 4000),
     ("artifact", 600, 8000),
@@ -526,6 +528,26 @@ fn build_case(stream: &str, idx: usize, seed: u64, thorough: bool, corpus: &[(St
             let p = g.program();
             let tags: Vec<String> = g.used.iter().map(|(k, v)| format!("{}={}", k, v)).collect();
             (tags.join(" "), Case::Text(p))
+        }
+        "progen" => {
+            let cfg = crate::progen::Cfg {
+                closure_flows: true,
+                traits: true,
+                generics: true,
+                go_stmt: true,
+                max_depth: 2 + r.below(3),
+                effects: true,
+                wildcard_arrays: r.chance(1, 2),
+                nested_patterns: true,
+            };
+            let mut rr = r.fork(5);
+            let (p, feats) = crate::progen::gen_program(&mut rr, cfg);
+            let tags: Vec<String> = feats.iter().map(|(k, v)| format!("{}={}", k, v)).collect();
+            if r.chance(1, 3) {
+                (format!("swap {}", tags.join(" ")), Case::Text(mutate_swap(&p, &mut r)))
+            } else {
+                (tags.join(" "), Case::Text(p))
+            }
         }
         "gen-ill" => {
             // first pass counts the holes, second pass fills one of them wrongly
